@@ -6,11 +6,11 @@ import gpos
 from ufo import build, err_kind, rat
 
 ID = "C06"
-PROOF_FILES = ["C06Parse", "C06Lists", "C06Classes", "C06Color", "C06Entries", "C06Inv", "C06Cov", "C06Exist", "C06Build", "C06Pipe", "C06Attach", "C06AttachBase", "C06AttachLig", "C06AttachMkmk", "C06Sound", "C06Complete", "C06Order", "C06", "C06Session"]
+PROOF_FILES = ["C06Parse", "C06Lists", "C06Classes", "C06Color", "C06Entries", "C06Inv", "C06Cov", "C06Exist", "C06Build", "C06Pipe", "C06Attach", "C06AttachBase", "C06AttachLig", "C06AttachMkmk", "C06Sound", "C06Complete", "C06Order", "C06OrderLig", "C06OrderMkmk", "C06", "C06Session"]
 THEOREM = ("Ufo2ft.C06.C06_offset / C06_candidate / C06_sound / C06_ligature / C06_complete / C06_holds / C06_error / "
            "groups_no_shared_mark / colorGraph_is_proper / firstAvailable_smallest / C06_parse_shape / C06_parse_mark / "
            "C06_parse_lig / C06_parse_null / C06_candidate_order_partial / C06_offset_general / C06_ctx_offset / C06_ctx_holds / "
-           "C06_frame / C06_plain_lookups_have_no_contextual_anchor / C06_ctx_split / C06_ctx_error / C06_modelX_error / C06_objectLibs_old_counterexample / C06_ctx_skip / C06_ctx_keyError_old_counterexample / C06_classes_injective / C06_collision_old_counterexample / C06_complete_general / C06_holds_general / C06_ctx_complete / C06_ctx_complete_holds / C06_ctx_ligature_last_wins_counterexample / C06_session_history_free / C06_session_holds")
+           "C06_frame / C06_plain_lookups_have_no_contextual_anchor / C06_ctx_split / C06_ctx_error / C06_modelX_error / C06_objectLibs_old_counterexample / C06_ctx_skip / C06_ctx_keyError_old_counterexample / C06_classes_injective / C06_collision_old_counterexample / C06_complete_general / C06_holds_general / C06_ctx_complete / C06_ctx_complete_holds / C06_ctx_ligature_last_wins_counterexample / C06_session_history_free / C06_session_holds / C06_candidate_order_base_partial / C06_candidate_order_mark_partial / C06_candidate_order_lig_partial / C06_candidate_order_lig_unique_partial / C06_candidate_order_mark_lig_partial / C06_candidate_order_mkmk_partial / C06_candidate_order_mkmk_feature_partial")
 N = {"quick": 400, "thorough": 12000}
 RULE = ("random 'anchor fonts': 2-10 glyphs in the roles base / ligature / mark / Indic-Khmer base+mark / odd, each with a random "
         "set of named anchors (plain, '_'-prefixed, numbered 'x_N' incl. gaps, key-less '_N', 'top.alt'-style, keys ending in a digit, "
@@ -983,9 +983,16 @@ LEVEL_NOTE = ("Writer re-use (one instance, several fonts) is covered by corresp
               "any): proved for the mark-to-base lookups of any one feature in the default mode (Props/C06Order.lean, "
               "C06_candidate_order_base_partial, and for all lookups of the `mark` feature C06_candidate_order_mark_partial: the lookups are one per anchor key in ascending key order, the last applicable lookup "
               "wins, so the pair of the GREATEST matching key that passes the feature's anchor filter is attached, at exactly its "
-              "anchor difference; hypotheses on the anchor lists of _getAnchorLists; non-vacuity example with keys top / top.alt). Not "
-              "proved: the winner in groupMarkClasses mode (depends on the greedy colouring; last colour group in sort order), for "
-              "mark-to-ligature and mark-to-mark lookups, across features (abvm, blwm, mark, mkmk order) and restated on source "
+              "anchor difference; hypotheses on the anchor lists of _getAnchorLists; non-vacuity example with keys top / top.alt). The same "
+              "is proved for the mark-to-ligature lookups of any one feature in the default mode, per component number (Props/C06OrderLig.lean, "
+              "C06_candidate_order_lig_partial: for (ligature, component N, mark) the attachment goes through a plain anchor k_N of the GREATEST matching key k; "
+              "hypothesis: component N is not reset by a key-less `_N` anchor; because `top_1` and `top_01` are two anchors of the same key and number the "
+              "conclusion is `some anchor of that key and number`, and exactly the given pair when that anchor is unique - C06_candidate_order_lig_unique_partial; "
+              "C06_candidate_order_mark_lig_partial = all lookups of the `mark` feature for a component query), and for the mark-to-mark lookups of any one "
+              "feature in BOTH modes (these lookups are per key in either mode; Props/C06OrderMkmk.lean, C06_candidate_order_mkmk_partial, and the whole "
+              "`mkmk` feature C06_candidate_order_mkmk_feature_partial); each with a two-key non-vacuity example. Not "
+              "proved: the winner in groupMarkClasses mode for mark-to-base / mark-to-ligature (out of scope: depends on the greedy colouring; last colour group in sort order), "
+              "which of several same-key same-number ligature anchors wins, ligature components reset by `_N`, the composition across features (abvm, blwm, mark, mkmk order) and the restatement on source "
               "anchors - those are tied by correspondence only (C06_candidate_order_partial gives the key order of the groups). Trusted: Lean kernel "
               "+ standard axioms; the correspondence harness and harness/gpos.py; feaLib's compilation of the generated statements; GDEF "
               "classes / abvm glyph sets / glyph order are inputs. Contextual anchors ('*' + GPOS_Context object-lib data) are modelled (Model/C06Ctx.lean): proved are the soundness of every contextual attachment (C06_ctx_offset), that plain lookups never use a contextual anchor and stay sound in their presence (C06_offset_general), the exact frame without object-lib data (C06_frame) and the error conditions; completeness of the contextual lookups (C06_ctx_complete: referenced lookup of the right feature attaches, context dispatched; proviso: no second contextual anchor of the glyph with the same context and key - otherwise false, C06_ctx_ligature_last_wins_counterexample) and of the plain lookups when object-lib data is present (C06_complete_general); both predicates are also evaluated on the observed font. The dispatch (chaining) statements are compared as generated feature TEXT; the compiled ChainContextPos rules are checked against that text by the harness (restricted grammar) and the referenced lookups are evaluated in the compiled GPOS. Not modelled: contexts without '*' (feaLib rejects them), append mode and "
